@@ -20,12 +20,15 @@ Offerable == Names \cup {"zz"}          \* what a client may put in its ALPN lis
 SeqToSet(s) == {s[i] : i \in 1..Len(s)}
 
 \* client c = [kind, extras]: kind "node" (authenticates), "base" (plain TLS through the base config), "fetch",
+\* "nodeAfter" / "nodeBefore" (the registered node as a raw client that puts its application protocols after the
+\* certificate preference / before the library's chunks: routed exactly like "node"),
 \* "rogue" (never enrolled: an EMPTY authentication entry followed by the chunks of a self-signed fetch request, with a
 \* self-signed certificate: refused, the authentication flow comes first and has nothing to verify)
 \* cfg = [reg: set of registered names, native: set of names registered with native connections]
+NodeKinds == {"node", "nodeAfter", "nodeBefore"}
 Routes(cfg, c) ==
   IF c.kind \in {"fetch", "rogue"} THEN {"none"}                         \* never yields a connection
-  ELSE IF c.kind = "node" THEN
+  ELSE IF c.kind \in NodeKinds THEN
        LET hit == cfg.reg \cap SeqToSet(c.extras) IN
        IF hit # {} THEN hit
        ELSE IF AUTH \in cfg.reg THEN {AUTH} ELSE {"none"}
@@ -33,9 +36,9 @@ Routes(cfg, c) ==
 
 \* what the property states about a delivery `from` (or "none") of client c
 AllowedC17(cfg, c, from, native, auth) ==
-  /\ (from \notin {UNAUTH, "none"} => c.kind = "node" /\ auth)          \* authenticated sub-listeners get authenticated connections only
-  /\ (c.kind # "node" => from \in {UNAUTH, "none"} /\ (from = "none" <=> (UNAUTH \notin cfg.reg \/ c.kind \in {"fetch", "rogue"})))
-  /\ (c.kind = "node" =>
+  /\ (from \notin {UNAUTH, "none"} => c.kind \in NodeKinds /\ auth)          \* authenticated sub-listeners get authenticated connections only
+  /\ (c.kind \notin NodeKinds => from \in {UNAUTH, "none"} /\ (from = "none" <=> (UNAUTH \notin cfg.reg \/ c.kind \in {"fetch", "rogue"})))
+  /\ (c.kind \in NodeKinds =>
         LET hit == cfg.reg \cap SeqToSet(c.extras) IN
         IF hit # {} THEN from \in hit
         ELSE IF AUTH \in cfg.reg THEN from = AUTH ELSE from = "none")
@@ -43,5 +46,5 @@ AllowedC17(cfg, c, from, native, auth) ==
 
 Configs == {cf \in [reg : SUBSET Names, native : SUBSET Names] : cf.native \subseteq cf.reg}
 ExtrasLists == {<<>>} \cup {<<a>> : a \in Offerable} \cup {<<a, b>> : a \in Offerable, b \in Offerable}
-Clients == [kind : {"node", "base", "fetch", "rogue"}, extras : ExtrasLists]
+Clients == [kind : {"node", "nodeAfter", "nodeBefore", "base", "fetch", "rogue"}, extras : ExtrasLists]
 =============================================================================
